@@ -56,6 +56,78 @@ def reply_val(a):
             a["imprint"], a["alg_same"], a.get("ctx_dead", False)]
 
 
+# ---------------------------------------------------------------- verification histories (vseq): model-free oracle
+# Written from the property text: "certificate chains are then judged at the attested time, so an expired signer certificate
+# is accepted only with a valid timestamp from within its lifetime" — for EVERY verification of a process, whatever was
+# verified before it.  Ground truth comes from the case description (validity windows, issuers, usages, attested times).
+POOL_ROOTS = {"P1": ["root"], "P1b": ["root"], "PQ": ["rogue"]}
+POOL_ID = {"P1": 1, "P1b": 2, "PQ": 3}
+SEQ_ROOTS = {"root": {"name": "root", "nb": 1262304000, "na": 2366841600, "issuer": "root", "eku": [], "ca": True},
+             "rogue": {"name": "rogue", "nb": 1262304000, "na": 2366841600, "issuer": "rogue", "eku": [], "ca": True}}
+
+
+def seq_certs(case):
+    d = dict(SEQ_ROOTS)
+    for c in case["certs"]:
+        d[c["name"]] = c
+    return d
+
+
+def seq_chain_ok(certs, name, t, usage, available, trusted, depth=0):
+    """is there a path from certificate `name` to a trusted root, every certificate on it valid at t and allowing `usage`?"""
+    c = certs[name]
+    if not (c["nb"] <= t <= c["na"]):
+        return False
+    eku = c.get("eku") or []
+    if usage != 0 and eku and usage not in eku and 0 not in eku:
+        return False
+    if c["issuer"] in trusted and c["issuer"] != name:
+        return True
+    if depth >= 3 or c["issuer"] == name:
+        return False
+    if c["issuer"] in available and certs[c["issuer"]].get("ca"):
+        return seq_chain_ok(certs, c["issuer"], t, usage, available, trusted, depth + 1)
+    return False
+
+
+def seq_spec(case, st):
+    certs = seq_certs(case)
+    trusted = POOL_ROOTS[st["pool"]]
+    avail = set((st.get("bundle") or []) + (st.get("extra") or []))
+    if st["token"] == "none":
+        return seq_chain_ok(certs, st["leaf"], case["now"], st["usage"], avail, trusted)
+    t = st["t"]
+    return seq_chain_ok(certs, st["tsa"], t, 8, avail, trusted) and seq_chain_ok(certs, st["leaf"], t, st["usage"], avail, trusted)
+
+
+def seq_model_val(case):
+    certs = seq_certs(case)
+    ids = {"root": 1, "rogue": 2}
+    for i, c in enumerate(case["certs"]):
+        ids[c["name"]] = 100 + i
+
+    def cv(n):
+        c = certs[n]
+        return [ids[n], c["nb"], c["na"], ids[c["issuer"]], list(c.get("eku") or [])]
+    steps = []
+    for st in case["steps"]:
+        bundle = [cv(st["leaf"])] + [cv(n) for n in (st.get("bundle") or [])]
+        has = st["token"] != "none"
+        tsa = [[cv(st["tsa"]), bundle + [cv(st["tsa"])]], st["t"]] if has else [[cv(st["leaf"]), []], 0]
+        steps.append([POOL_ID[st["pool"]], [ids[r] for r in POOL_ROOTS[st["pool"]]], [cv(n) for n in (st.get("extra") or [])],
+                      st["usage"], case["now"], [cv(st["leaf"]), bundle], has, tsa])
+    return [3, steps]
+
+
+def seq_err_class(st, which):
+    v, e = st[which], st.get("err" if which == "verdict" else "fresh_err", "") or ""
+    if v == "ok":
+        return (0, 0)
+    if v == "panic":
+        return (2, -1)
+    return (1, 14 if "validating timestamp" in e else 15)
+
+
 CLS = {"vsix": 2, "appmanifest": 1, "cosign": 3}
 
 
@@ -98,6 +170,7 @@ def run(ctx, replay=None):
     skipped = [c for c in cases if c["kind"] == "sign" and c["result"] == "skip"]
     verify = [c for c in cases if c["kind"] == "verify"]
     cache = [c for c in cases if c["kind"] == "cache"]
+    vseq = [c for c in cases if c["kind"] == "vseq"]
     for c in skipped:
         ctx.violation("C10:sign:setup:" + c["type"], "sign case could not be set up: " + (c.get("err_text") or ""), {"cases": [c]}, False)
 
@@ -260,6 +333,44 @@ def run(ctx, replay=None):
         elif spec and not c["accepted"]:
             ctx.violation("C10:verify:rejected-valid", "rejected (%s %s) although everything is valid at the attested time: %s" % (c.get("ts_err", ""), c.get("chain_err", "")[:80], label), obj, False)
 
+    # ================================================================ model-free oracle: verification histories
+    seq_steps = 0
+    for c in vseq:
+        certs = seq_certs(c)
+        for i, stp in enumerate(c["steps"]):
+            seq_steps += 1
+            spec = seq_spec(c, stp)
+            before = " > ".join(x["label"] for x in c["steps"][:i]) or "nothing"
+            what = "history `%s`, step %d `%s` (leaf %s, pool %s, usage %d%s), verified after: %s" % (
+                c["name"], i, stp["label"], stp["leaf"], stp["pool"], stp["usage"],
+                (", token by %s attested %d" % (stp["tsa"], stp["t"])) if stp["token"] != "none" else ", no timestamp", before)
+            obj = {"cases": [c], "step": i, "expected_accept": spec, "fresh_process_verdict": stp["fresh"]}
+            if stp.get("sig_err") or stp["fresh"] == "sigerr":
+                ctx.violation("C10:verify-seq:setup", "signature of a history step did not verify: %s %s" % (stp.get("sig_err"), stp.get("fresh_err")), obj, False)
+                continue
+            if stp["verdict"] == "panic" or stp["fresh"] == "panic":
+                ctx.violation("C10:verify-seq:panic", "verifier panicked (%s %s): %s" % (stp.get("err"), stp.get("fresh_err"), what), obj)
+                continue
+            if stp["token"] != "none" and stp["cs_time"] != stp["t"]:
+                ctx.violation("C10:verify-seq:attested-time-misread", "the token attests %d, the verifier reports %d: %s" % (stp["t"], stp["cs_time"], what), obj)
+                continue
+            acc = stp["verdict"] == "ok"
+            fresh_note = "; the same verification done first in a fresh process says `%s`" % stp["fresh"]
+            if acc and not spec:
+                leaf = certs[stp["leaf"]]
+                if leaf["na"] < c["now"] and (stp["token"] == "none" or not (leaf["nb"] <= stp["t"] <= leaf["na"])):
+                    ctx.violation("C10:verify-seq:expired-accepted", "expired signer certificate accepted without a valid timestamp from within its lifetime: " + what + fresh_note, obj)
+                elif stp["token"] != "none" and not (certs[stp["tsa"]]["nb"] <= stp["t"] <= certs[stp["tsa"]]["na"]):
+                    ctx.violation("C10:verify-seq:authority-outside-lifetime-accepted", "timestamp accepted although the authority's certificate was not valid at the attested time: " + what + fresh_note, obj)
+                elif stp["token"] != "none" and not (leaf["nb"] <= stp["t"] <= leaf["na"]):
+                    ctx.violation("C10:verify-seq:judged-at-other-time", "signer chain not judged at the attested time (certificate not valid then): " + what + fresh_note, obj)
+                else:
+                    ctx.violation("C10:verify-seq:accepted-invalid", "chain accepted although the property demands rejection (trust store / usage / intermediates of THIS verification): " + what + fresh_note, obj)
+            elif stp["verdict"] != stp["fresh"]:
+                ctx.violation("C10:verify-seq:history-dependent", "verdict `%s` depends on what was verified before: %s%s" % (stp["verdict"], what, fresh_note), obj)
+            elif spec and not acc:
+                ctx.violation("C10:verify-seq:rejected-valid", "rejected (%s) although everything is valid at the judgement time: %s" % ((stp.get("err") or "")[:80], what), obj, False)
+
     # ================================================================ correspondence with the model
     mism, evaluated = [], 0
     if model_ok and cases:
@@ -328,13 +439,27 @@ def run(ctx, replay=None):
                         why.append("error class model=%d impl=%d" % (code, ic))
                 if why:
                     mism.append((c, why))
-            evaluated = len(client) + len(sign) + len(verify)
+            for c, r in zip(vseq, ctx.run_model([seq_model_val(c) for c in vseq])):
+                why = []
+                if len(r) != len(c["steps"]):
+                    why.append("model produced %d verdicts for %d steps" % (len(r), len(c["steps"])))
+                for i, (stp, m) in enumerate(zip(c["steps"], r)):
+                    kind, code, fkind, fcode, mspec = m
+                    if (kind, code) != seq_err_class(stp, "verdict"):
+                        why.append("step %d `%s` in history: model=(%d,%d) impl=%s" % (i, stp["label"], kind, code, seq_err_class(stp, "verdict")))
+                    if (fkind, fcode) != seq_err_class(stp, "fresh"):
+                        why.append("step %d `%s` fresh process: model=(%d,%d) impl=%s" % (i, stp["label"], fkind, fcode, seq_err_class(stp, "fresh")))
+                    if bool(mspec) != seq_spec(c, stp):
+                        why.append("step %d `%s`: Coq spec_chain_accept disagrees with the python oracle" % (i, stp["label"]))
+                if why:
+                    mism.append((c, why))
+            evaluated = len(client) + len(sign) + len(verify) + seq_steps
         except RuntimeError as e:
             ctx.violation("C10:model-eval", str(e)[-300:], {"output": str(e)}, False)
     if mism and not any(v[2] for v in ctx.violations):
         c, why = mism[0]
         ctx.violation("C10:correspondence:" + c["kind"], "model and implementation disagree on %d cases (first: %s %s: %s); no case violates the property" %
-                      (len(mism), c["kind"], c.get("seq") or c.get("token"), "; ".join(why)),
+                      (len(mism), c["kind"], c.get("seq") or c.get("token") or c.get("name"), "; ".join(why)),
                       {"cases": [c], "why": why, "broken": "correspondence C10.Run"}, False)
     ctx.proof_verdict()
 
@@ -347,6 +472,9 @@ def run(ctx, replay=None):
     for c in verify:
         dist["verify/" + c["form"] + "/" + c["token"]] = dist.get("verify/" + c["form"] + "/" + c["token"], 0) + 1
     dist["cache"] = len(cache)
+    for c in vseq:
+        k = "vseq/" + c["name"].split(":")[0] + "/len%d" % len(c["steps"])
+        dist[k] = dist.get(k, 0) + 1
     nontrivial = set()
     for c in client:
         if c["hits"]:
@@ -358,21 +486,25 @@ def run(ctx, replay=None):
         nontrivial.add(("v", c["form"], c["token"], c["leaf"]["name"], c["tsa"].get("name"), c["tsa_trusted"], c["tsa_eku"]))
     for c in cache:
         nontrivial.add(("m", c["name"]))
+    for c in vseq:
+        nontrivial.add(("q", c["name"]))
     cov = ctx.proof_coverage([
-        "srcgen translator (PKIStatus constants; conditions of ParseResponse, SanityCheckToken, tsClient.Timestamp/do, TimestampAndMarshal, Verify, MessageImprint.Verify, VerifyMicrosoftToken, TimestampedSignature.VerifyChain; call orders; presence of the final error returns)",
+        "srcgen translator (PKIStatus constants; conditions of ParseResponse, SanityCheckToken, tsClient.Timestamp/do, TimestampAndMarshal, Verify, MessageImprint.Verify, VerifyMicrosoftToken, TimestampedSignature.VerifyChain; call orders; presence of the final error returns; pkcs7.Signature.VerifyChain / CounterSignature.VerifyChain / TimestampedSignature.VerifyChain translated statement by statement into the chain-verification IR (C10/ChainIR.v); inventory of package-level mutable state of lib/pkcs7, lib/pkcs9, lib/x509tools and its uses on the verification path, by syntactic analysis with callee-name call closure)",
         "correspondence harness cmd/drv-c10: fake TSA over httptest whose genuine replies are produced by `openssl ts -reply` / `openssl cms -sign` and mutated per behaviour; real tsclient, real signers via signinit.Init + module Sign/Apply/Verify, real pkcs7/pkcs9 verification with Go-minted certificate windows",
         "openssl 3 (`ts -verify`, `cms -verify`) as independent judge of returned/attached tokens",
         "ideal digest (arbitrary function H; injectivity only for countersig_binds_unique); token signature validity, ASN.1 parsing, x509 path building (trusted / window / EKU) are oracles of the model"], anchors)
     samples = [{k: c.get(k) for k in ("kind", "style", "seq", "hits", "result", "origin")} for c in client[300:302]] + \
               [{k: c.get(k) for k in ("kind", "type", "pool", "seq", "hits", "result", "stamped", "origin")} for c in sign[2:4]] + \
-              [{k: c.get(k) for k in ("kind", "form", "token", "leaf", "tsa", "ts_result", "chain", "accepted")} for c in verify[13:15]]
+              [{k: c.get(k) for k in ("kind", "form", "token", "leaf", "tsa", "ts_result", "chain", "accepted")} for c in verify[13:15]] + \
+              [{"kind": "vseq", "name": c["name"], "steps": [(x["label"], x["verdict"], x["fresh"]) for x in c["steps"]]} for c in vseq[1:3]]
     retried = [c for c in sign if c.get("retried")]
     if retried:
         ctx.notes.append("unrelated to C10: %d sign operations hit the intermittent `apply: EOF` of the %s transformer (reader goroutine still using the input descriptor when Apply starts) and were repeated" % (len(retried), sorted(set(c["type"] for c in retried))))
-    cov.update({"evaluations": len(client) + len(sign) + len(verify) + sum(len(c["steps"]) for c in cache),
+    cov.update({"evaluations": len(client) + len(sign) + len(verify) + sum(len(c["steps"]) for c in cache) + 2 * seq_steps,
+                "history_cases": len(vseq), "history_steps": seq_steps,
                 "model_evaluations": evaluated,
                 "distinct_nontrivial": len(nontrivial),
-                "rule": "client: every sequence of <=2 authority behaviours over the full behaviour list (17 RFC 3161 / 8 legacy), every sequence of 3 over the core behaviours, plus each remaining behaviour in first/middle/last position, context-expiry cases; sign: 13 signer types x pools (default/named/none/flag-off) x behaviour sequences; verify: 8 leaf windows x 12 token/TSA scenarios + TSA boundary windows + counterSignature form; cache: 6 multi-step scenarios. non-trivial = distinct inputs on which at least one authority was contacted / a verification decision was taken",
+                "rule": "client: every sequence of <=2 authority behaviours over the full behaviour list (17 RFC 3161 / 8 legacy), every sequence of 3 over the core behaviours, plus each remaining behaviour in first/middle/last position, context-expiry cases; sign: 13 signer types x pools (default/named/none/flag-off) x behaviour sequences; verify: 8 leaf windows x 12 token/TSA scenarios + TSA boundary windows + counterSignature form; cache: 6 multi-step scenarios; histories: for the signer certificate and for the authority certificate, every (accepting step in {in lifetime, exactly notBefore, exactly notAfter}) x (rejecting step in {no timestamp, after expiry, notAfter+1s, before notBefore, notBefore-1s}) in the orders accept>reject and reject>accept>reject with one leaf certificate, one CertPool object and one usage per history, plus histories that change the trust-store object / its contents / the usage / the bundled and caller-supplied intermediates / carry a foreign root; every step is also verified once as the first act of a fresh process. non-trivial = distinct inputs on which at least one authority was contacted / a verification decision was taken",
                 "samples": samples, "exhaustive": False, "input_distribution": dist,
                 "model_mismatches": len(mism),
                 "finding_cases": finding_cases})
@@ -380,4 +512,5 @@ def run(ctx, replay=None):
         "digest function idealised (arbitrary H; collision-freeness only where stated)",
         "validity of a token's own signature, DER parsing and x509 path validation are attributes of the model's inputs (oracles); the harness supplies them by construction and cross-checks with openssl",
         "Go's x509: zero CurrentTime means now; NotBefore/NotAfter inclusive",
+        "history model: crypto/x509 path validation is the oracle path_ok (windows at one instant, EKU, issuer in the pool directly or through one bundled / caller-supplied intermediate); process state outside lib/pkcs7, lib/pkcs9, lib/x509tools (Go runtime, crypto/x509 internals such as the lazily parsed pool entries) is assumed not to influence verdicts — the harness compares every verdict with a fresh process",
         "memcache contents are trusted (a cached token is returned without re-validation)"])
